@@ -23,23 +23,45 @@ def node_bin():
     return os.path.join(root, vs[-1], "bin", "node")
 
 
-def run_js(raws):
-    scratch = os.path.join(core.SCRATCH, "js-%d" % os.getpid())
+def _run_js_batch(raws, tag):
+    scratch = os.path.join(core.SCRATCH, "js-%d-%s" % (os.getpid(), tag))
     os.makedirs(scratch, exist_ok=True)
     inp = os.path.join(scratch, "in.jsonl")
     with open(inp, "w") as f:
         for r in raws:
             f.write(json.dumps({"hex": r.hex()}) + "\n")
     here = os.path.join(core.VERIF, "harness", "js")
-    r = subprocess.run([node_bin(), "--no-warnings", os.path.join(here, "runner.mjs"), "/repo/src/js/pose_format/src/parser.ts", scratch, inp], capture_output=True, text=True, timeout=1200)
     import shutil
+    try:
+        r = subprocess.run([node_bin(), "--no-warnings", "--max-old-space-size=512", os.path.join(here, "runner.mjs"), "/repo/src/js/pose_format/src/parser.ts", scratch, inp],
+                           capture_output=True, text=True, timeout=600)
+        err, code = r.stderr, r.returncode
+        outs = [json.loads(l) for l in r.stdout.splitlines() if l.strip().startswith("{")] if code == 0 else []
+    except subprocess.TimeoutExpired:
+        err, code, outs = "timeout", -1, []
     shutil.rmtree(scratch, ignore_errors=True)
-    if r.returncode != 0:
-        raise core.InfraError("node runner failed: " + r.stderr[-1500:])
-    outs = [json.loads(l) for l in r.stdout.splitlines() if l.strip()]
-    if len(outs) != len(raws):
-        raise core.InfraError("node runner answered %d of %d files" % (len(outs), len(raws)))
-    return outs
+    if code == 0 and len(outs) == len(raws):
+        return outs, None
+    return None, (err or "")[-600:]
+
+
+def run_js(raws):
+    """every file through the real parser.ts; a file on which the node process dies (out of memory, abort, hang) is isolated by bisection and answered {"ok": False, "crash": …}"""
+    budget = [12]                                            # at most this many crashing files are isolated; the rest of a failing half is marked as not run
+    def go(lo, hi, tag):
+        outs, err = _run_js_batch(raws[lo:hi], tag)
+        if outs is not None:
+            return outs
+        if "stripTypeScriptTypes" in err or "Cannot find module" in err or "SyntaxError" in err and hi - lo == len(raws):
+            raise core.InfraError("node runner failed: " + err)
+        if hi - lo == 1:
+            budget[0] -= 1
+            return [{"ok": False, "crash": err[-300:]}]
+        if budget[0] <= 0:
+            return [{"ok": False, "crash": "not isolated (too many crashing files)"} for _ in range(lo, hi)]
+        mid = (lo + hi) // 2
+        return go(lo, mid, tag + "l") + go(mid, hi, tag + "r")
+    return go(0, len(raws), "b")
 
 
 def nan_class(b):
@@ -162,7 +184,12 @@ def run(ctx):
     js = run_js(raws)
     model = ctx.driver.run([{"op": "js_parse", "hex": r.hex()} for r in raws])
     for (tag, raw, hlen), j, m in zip(files, js, model):
-        ctx.evaluated(raw); ctx.count(tag + (":js-ok" if j["ok"] else ":js-error"))
+        ctx.evaluated(raw); ctx.count(tag + (":js-ok" if j["ok"] else (":js-crash" if "crash" in j else ":js-error")))
+        if "crash" in j:
+            if tag != "version-edge":
+                ctx.violation("the JavaScript reader dies (out of memory / abort / hang) on a file the Python reader reads", {"layout": tag, "file_bytes": len(raw), "hex": raw.hex() if len(raw) < 3000 else None},
+                              {"node": j["crash"]}, True, size=len(raw), signature={"clause": "js-crash"})
+            continue
         if tag != "version-edge":
             py = impl_read(raw, "bytes", {}, None)
             compare(ctx, tag, raw, j, py, hlen, first_person_only=tag.startswith("v0.0"))
